@@ -56,6 +56,8 @@ pub(crate) struct Constants {
 impl Constants {
     pub fn get() -> &'static Constants {
         static RES: LazyLock<Constants> = LazyLock::new(|| {
+            #[cfg(feature = "verif_hooks")]
+            let _no_preempt = crate::verif_hooks::NoPreempt::enter();
             let g = Globals::extended_internal();
             Constants {
                 fn_len: BuiltinFn(g.get_frozen("len").unwrap()),
